@@ -300,3 +300,7 @@ def check(ctx) -> None:
     rule_p2(ctx)
     rule_p3(ctx)
     rule_p4(ctx)
+    # P6: every result row describes its own input: positional ids / id maps are coherent (shared with C06-B2)
+    from . import c06
+
+    c06.rule_b2(ctx, pl, "C05-P6")
